@@ -15,6 +15,7 @@ pub fn block() -> impl Strategy<Value = Vec<HOp>> {
     prop_oneof![
         8 => work_block(gen::edit_r2()),
         5 => diverge_block(gen::edit_r1()),
+        4 => rewrite_scenario_block(gen::edit_r1()),
         3 => stash_block(gen::edit_r1()),
         3 => ai_edit_op().prop_map(|o| vec![o]),
         12 => preserving_op().prop_map(|o| vec![o]),
